@@ -163,7 +163,8 @@ func singleWriterRouting(r *core.Run) {
 			continue
 		}
 		procs := core.CallsTo(fn.SSA, true, core.Named("github.com/redis/go-redis/v9.(*Client).Process"))
-		r.Check(len(procs) >= 1, "single-writer-routing", name+" forwards on the other edge", site(r, fn.SSA.Pos()),
+		via := findEventsVia(p, fn.SSA, callTo(fnRedisProcess)) // or through a same-package helper
+		r.Check(len(procs)+len(via) >= 1, "single-writer-routing", name+" forwards on the other edge", site(r, fn.SSA.Pos()),
 			"the non-owner edge sends the command to the owner", "no forwarding call on the non-owner edge")
 	}
 }
